@@ -1,7 +1,9 @@
 //! `fvh` — correspondence harness. Runs the real flacenc code (built from /repo's working tree
 //! with `--cfg flacenc_verif`) on generated cases and prints one protocol record per line.
 
+mod gen;
 mod sink;
+mod stream;
 mod util;
 
 use std::io::Write;
@@ -31,6 +33,31 @@ fn main() {
     };
     match cmd {
         "sink" => sink::generate(seed, cases, flag(&args, "--exhaustive"), &mut out),
+        "stream" => {
+            let max_samples: usize = arg(&args, "--max-samples", 8192);
+            let focus: String = arg(&args, "--focus", "none".to_string());
+            stream::generate(seed, cases, max_samples, &focus, &mut out);
+        }
+        "replay" => {
+            // records come from $FVH_REPLAY (one record) or stdin (one per line)
+            let mut lines: Vec<String> = vec![];
+            if let Ok(l) = std::env::var("FVH_REPLAY") {
+                lines.push(l);
+            } else {
+                use std::io::BufRead;
+                for l in std::io::stdin().lock().lines() {
+                    lines.push(l.unwrap());
+                }
+            }
+            for l in lines {
+                let kind = l.split(' ').next().unwrap_or("");
+                match kind {
+                    "sink" => out(sink::replay(&l)),
+                    "stream" => out(stream::replay(&l)),
+                    _ => out(format!("#cannot-replay {kind}")),
+                }
+            }
+        }
         _ => {
             eprintln!("usage: fvh <stream> [--seed N] [--cases N] ...");
             std::process::exit(2);
